@@ -220,6 +220,53 @@ def _c_subst(ctx, case):
         check_identity(ctx, case, name, False, e, got, smap, all_subs)
 
 
+@check("C08.tablehistory")
+def c_tablehistory(ctx, case):
+    """The table of assignments is the CALLER's: using it (through make_subst_func, a mapper or
+    substitute) leaves it as it was, and the caller goes on to rebind a name in it -- the next
+    use substitutes the NEW replacement.  Three steps: use, rebind, use again."""
+    e, d, rebind = case
+    d = dict(d)
+    before = {k: v for k, v in d.items()}
+    ctx.case(None)
+    ctx.count("table_histories")
+    try:
+        first = SubstitutionMapper(make_subst_func(d))(e)
+        CachedSubstitutionMapper(make_subst_func(d))(e)
+    except RecursionError:
+        raise
+    except Exception as ex:  # noqa: BLE001
+        ctx.fail("C08.tablehistory", case, f"raised:{type(ex).__name__}", f"{G.src(e)} {_m(d)}: {ex}")
+        return
+    same_keys = list(d.keys()) == list(before.keys()) and all(d[k] is before[k] for k in before)
+    if not same_keys:
+        ctx.fail("C08.tablehistory", case, "table-modified",
+                 f"make_subst_func / the mappers changed the caller's table: was {_m(before)}, "
+                 f"now {_m(d)}")
+        d = dict(before)
+    d.update(rebind)
+    want = refsub(e, list(d.items()))
+    for name, fn in (("make_subst_func", lambda: SubstitutionMapper(make_subst_func(d))(e)),
+                     ("substitute", lambda: substitute(e, d, mapper_cls=SubstitutionMapper)),
+                     ("substitute-cached", lambda: substitute(e, d))):
+        try:
+            got = fn()
+        except RecursionError:
+            raise
+        except Exception as ex:  # noqa: BLE001
+            ctx.fail("C08.tablehistory", case, f"raised-after-rebind:{type(ex).__name__}", str(ex))
+            continue
+        ok = ref_eq(got, want) if name == "substitute-cached" else normal.typed_eq(got, want)
+        if not ok:
+            want_c = refsub(e, list(d.items()), collapse_cse=True)
+            explained = has_zero_cse(e, list(d.items())) and \
+                (ref_eq(got, want_c) if name == "substitute-cached" else normal.typed_eq(got, want_c))
+            ctx.fail("C08.tablehistory", case, f"stale-after-rebind:{name}",
+                     f"table {_m(before)} used once on {G.src(e)}, then rebound to {_m(d)}: "
+                     f"{name} gives {G.src(got)}, expected {G.src(want)}",
+                     finding=KF_CSE0 if explained else None)
+
+
 def stream_rows(seed, n):
     import random
     r = random.Random(seed)
@@ -440,6 +487,14 @@ def workload(ctx):
             if i < 3:
                 ctx.sample("structure", f"e={G.src(e)} map={_m(d)} kwargs={_m(kw)}")
             ctx.run("C08.subst", (e, d, kw))
+            if i % 5 == 0 and d and len(d) <= 16:
+                # rebind: the same name (given as a string or as a Variable) gets a new value
+                k0 = rng.choice(list(d))
+                nm = k0 if isinstance(k0, str) else getattr(k0, "name", None)
+                if nm is not None:
+                    rb = {rng.choice([nm, p.Variable(nm)]) if rng.random() < 0.3 else k0:
+                          p.Sum((p.Variable("rebound"), rng.randint(1, 9)))}
+                    ctx.run("C08.tablehistory", (e, d, rb))
         X, Y = p.Variable("x"), p.Variable("y")
         for i in range(ctx.per_shard(ctx.pick(24, 400))):
             d = rng.choice([{"x": Y, "y": X, "z": p.Sum((X, 1))}, {"x": p.Product((2, Y))},
@@ -475,6 +530,7 @@ def workload(ctx):
     ctx.count("replacement_values_of_special_kinds", sum(hist_kinds.values()))
     ctx.floor("replacement_values_of_special_kinds", 300)
     ctx.floor("large_tables", 100)
+    ctx.floor("table_histories", 300)
     ctx.floor("entry:plain", 2000)
     ctx.floor("entry:cached", 2000)
     ctx.floor("identity_checked", 5000)
